@@ -140,7 +140,7 @@ struct State {
 extern "C" void harness(void)
 {
   unsigned act[STEPS], dst[STEPS];
-  for (unsigned k = 0; k < STEPS; ++k) { act[k] = vs_range(ACTSET ? 16 : 8); dst[k] = vs_range(3); }
+  for (unsigned k = 0; k < STEPS; ++k) { act[k] = pick(ACTSET ? 16 : 8); dst[k] = pick(3); }
 
   // a diagram that outlives the history and shares nodes with it
   const Cube qk = cubeOf(CK); const Tab tk = qk.tab(CK.value, CK.dflt);
